@@ -53,6 +53,13 @@ def gen_case(rng):
             ads2 = [G.gen_adapter(rng, i, upper=True, prefix="bd", kinds=kinds) for i in range(rng.randint(1, 2))]
             if rng.random() < 0.25:
                 ads1 = []          # adapters for R2 only
+    if not pair_adapters and ads1 and rng.random() < 0.07:
+        # lengths and tolerances whose product is an integer on paper and just below it in double precision
+        L, K = rng.choice([(49, 1), (49, 2), (47, 3), (98, 2), (100, 0.29), (100, 0.57), (50, 0.58), (90, 0.7), (103, 1)])
+        a = G.gen_adapter(rng, 0, kinds=["a", "g"], minlen=L, maxlen=L)
+        a["spec"] += f";e={K}"
+        a["argv"] = [a["flag"], f"{a['name']}={a['spec']}"]
+        ads1[0] = a
     wild = rng.random() < 0.25
     if wild:
         # put N wildcards into some adapters (effective length < length)
